@@ -1,7 +1,5 @@
 SPECIFICATION Spec
 CONSTANTS
-  Shapes <- One_Shapes
-  Full = FALSE
-  Names <- One_Names
-INVARIANT NamesDistinctOnReal1D
+  Cols <- C3
+INVARIANT NamesDistinctOn1D
 CHECK_DEADLOCK FALSE
